@@ -1,0 +1,142 @@
+//! Verification hooks (compiled only with `--cfg callbag_verif`).
+//!
+//! Stand-ins for the synchronisation primitives used by `merge`, `combine` and `take` that call a
+//! process-global scheduler hook immediately before every shared-state access and then delegate to
+//! the real type.  With the cfg off this module does not exist and nothing changes.
+
+use std::sync::{Arc, RwLock};
+
+type Hook = Arc<dyn Fn(&'static str) + Send + Sync>;
+
+static HOOK: RwLock<Option<Hook>> = RwLock::new(None);
+
+/// Install (or remove) the scheduler hook called before every instrumented access.
+pub fn set_hook(hook: Option<Hook>) {
+    *HOOK.write().unwrap_or_else(|e| e.into_inner()) = hook;
+}
+
+/// Called before every instrumented shared-state access with the name of the access.
+pub fn yield_point(label: &'static str) {
+    let hook = HOOK.read().unwrap_or_else(|e| e.into_inner()).clone();
+    if let Some(hook) = hook {
+        hook(label);
+    }
+}
+
+pub mod sync {
+    use super::yield_point;
+    use std::sync::{atomic::Ordering, Arc};
+
+    #[derive(Debug, Default)]
+    pub struct AtomicUsize(std::sync::atomic::AtomicUsize);
+
+    impl AtomicUsize {
+        pub fn new(v: usize) -> Self {
+            Self(std::sync::atomic::AtomicUsize::new(v))
+        }
+        pub fn load(&self, o: Ordering) -> usize {
+            yield_point("usize.load");
+            self.0.load(o)
+        }
+        pub fn store(&self, v: usize, o: Ordering) {
+            yield_point("usize.store");
+            self.0.store(v, o)
+        }
+        pub fn fetch_add(&self, v: usize, o: Ordering) -> usize {
+            yield_point("usize.fetch_add");
+            self.0.fetch_add(v, o)
+        }
+        pub fn fetch_sub(&self, v: usize, o: Ordering) -> usize {
+            yield_point("usize.fetch_sub");
+            self.0.fetch_sub(v, o)
+        }
+        pub fn fetch_update<F>(&self, set: Ordering, fetch: Ordering, f: F) -> Result<usize, usize>
+        where
+            F: FnMut(usize) -> Option<usize>,
+        {
+            yield_point("usize.fetch_update");
+            self.0.fetch_update(set, fetch, f)
+        }
+    }
+
+    #[derive(Debug, Default)]
+    pub struct AtomicBool(std::sync::atomic::AtomicBool);
+
+    impl AtomicBool {
+        pub fn new(v: bool) -> Self {
+            Self(std::sync::atomic::AtomicBool::new(v))
+        }
+        pub fn load(&self, o: Ordering) -> bool {
+            yield_point("bool.load");
+            self.0.load(o)
+        }
+        pub fn store(&self, v: bool, o: Ordering) {
+            yield_point("bool.store");
+            self.0.store(v, o)
+        }
+    }
+
+    pub struct ArcSwapOption<T>(arc_swap::ArcSwapOption<T>);
+
+    impl<T> Default for ArcSwapOption<T> {
+        fn default() -> Self {
+            Self(arc_swap::ArcSwapOption::from(None))
+        }
+    }
+
+    impl<T> From<Option<Arc<T>>> for ArcSwapOption<T> {
+        fn from(v: Option<Arc<T>>) -> Self {
+            Self(arc_swap::ArcSwapOption::from(v))
+        }
+    }
+
+    impl<T> ArcSwapOption<T> {
+        pub fn load(&self) -> arc_swap::Guard<Option<Arc<T>>> {
+            yield_point("option.load");
+            self.0.load()
+        }
+        pub fn store(&self, v: Option<Arc<T>>) {
+            yield_point("option.store");
+            self.0.store(v)
+        }
+    }
+
+    pub struct ArcSwap<T>(arc_swap::ArcSwap<T>);
+
+    impl<T: Default> Default for ArcSwap<T> {
+        fn default() -> Self {
+            Self(arc_swap::ArcSwap::from_pointee(T::default()))
+        }
+    }
+
+    impl<T> ArcSwap<T> {
+        pub fn from_pointee(v: T) -> Self {
+            Self(arc_swap::ArcSwap::from_pointee(v))
+        }
+        pub fn load(&self) -> arc_swap::Guard<Arc<T>> {
+            yield_point("swap.load");
+            self.0.load()
+        }
+        pub fn store(&self, v: Arc<T>) {
+            yield_point("swap.store");
+            self.0.store(v)
+        }
+        /// read-copy-update as in arc-swap: load, compute, compare-and-swap, retry on interference
+        pub fn rcu<R, F>(&self, mut f: F) -> Arc<T>
+        where
+            F: FnMut(&Arc<T>) -> R,
+            R: Into<Arc<T>>,
+        {
+            loop {
+                yield_point("swap.rcu_load");
+                let cur = self.0.load_full();
+                let new: Arc<T> = f(&cur).into();
+                yield_point("swap.rcu_cas");
+                let prev = self.0.compare_and_swap(&cur, new);
+                if Arc::ptr_eq(&*prev, &cur) {
+                    return cur;
+                }
+            }
+        }
+    }
+}
